@@ -76,4 +76,23 @@ theorem tar_code_is_the_model :
     Gen.IoShapes.tarIndexLastWins = true := by
   decide
 
+/-- ARCHIVES WITH LINK MEMBERS (a folder that went through hard-link de-duplication, packed by `tar`): on an archive without
+  links the reader that resolves links is the reader of the append log, so everything above carries over -/
+theorem link_free_archive_reads_as_before (a : Archive) (n : String) : readL (plain a) n = read a n := readL_plain a n
+
+/-- a second name of an inode reads as the first: a hard-link member appended to ANY archive without symbolic links reads back,
+  under its own name, exactly what the name it points to reads back (the bytes, or nothing when that name resolves to nothing) -/
+theorem second_name_reads_as_the_first (a : LArchive) (hns : NoSym a) (n t : String) :
+    readL (a ++ [(n, Member.hard t)]) n = readL a t := hard_link_reads_its_target a hns n t
+
+/-- ... and it changes nothing that was readable under another name -/
+theorem link_member_leaves_other_names (a : LArchive) (hns : NoSym a) (n t n' : String) (b : Blob) (hne : (n == n') = false)
+    (h : readL a n' = some b) : readL (a ++ [(n, Member.hard t)]) n' = some b :=
+  hard_link_leaves_other_names a hns n t n' b hne h
+
+-- non-vacuity: two images sharing one inode, then a third file; the link reads the data, a link to a missing name reads nothing
+example : readL [("a.kpt", Member.data [1, 2]), ("b.kpt", Member.hard "a.kpt"), ("c.kpt", Member.data [3])] "b.kpt" = some [1, 2] ∧
+    readL [("b.kpt", Member.hard "a.kpt"), ("a.kpt", Member.data [1, 2])] "b.kpt" = none ∧
+    readL [("a.kpt", Member.data [1]), ("l", Member.sym "l")] "l" = none := by decide
+
 end Kapture.C12
